@@ -393,6 +393,10 @@ def check_refs(e, cols):
         return
     if e[0] == "col":
         lookup(cols, e[1], e[2])
+        if len(e) > 3 and e[3] == "bare" and sum(1 for (_, n) in cols if n == e[2]) != 1:
+            # printed without its qualifier: that is only the same reference while the name is unique
+            # in the frame (a reduction step may have removed what made it unique)
+            raise ModelError("bare reference %s is ambiguous in %r" % (e[2], cols))
         return
     if e[0] == "case":
         for c, v in e[1]:
